@@ -354,8 +354,13 @@ impl World {
     }
 
     fn fee_request(&mut self) -> Result<bool, Violation> {
+        Ok(self.fee_request_values()?.is_some())
+    }
+
+    /// A fee-percentile request (a state-changing observation in lazy mode) with its oracle.
+    pub fn fee_request_values(&mut self) -> Result<Option<Vec<u64>>, Violation> {
         if !self.data_gate_open() {
-            return Ok(false);
+            return Ok(None);
         }
         self.stats.oracle_comparisons += 1;
         let r = canister::get_fee_percentiles(self.network).map_err(|t| violation("C15", "fee-percentiles-trap", t.0))?;
@@ -430,8 +435,8 @@ impl World {
         if !window.is_empty() {
             self.stats.probe("fee_window_nonempty");
         }
-        self.last_fee_answer = Some(r);
-        Ok(true)
+        self.last_fee_answer = Some(r.clone());
+        Ok(Some(r))
     }
 
     pub fn fee_exact(&self) -> bool {
